@@ -83,6 +83,7 @@ func runC01(p *eng.Prog, r *eng.Report, tier string) {
 	c := &cx{p, r, tier}
 	callerSlicesNotRewritten(c, "C01.16", negSet(c, "C01.16"))
 	c01CachedMandatoryFlag(c, "C01.17")
+	c01FeaturesConfiguredPerStep(c, "C01.18")
 	nf, call := negotiateSite(c, "C01.1")
 	firstParam := ""
 	if nf != nil {
@@ -1000,4 +1001,74 @@ func c01CachedMandatoryFlag(c *cx, id string) {
 		}
 	}
 	c.r.Floor(id, "sfData literals", n, 3)
+}
+
+// c01FeaturesConfiguredPerStep (C01.18): the variable that holds the stream
+// configuration is captured by the Negotiator closure and therefore shared by
+// every step and every session that uses that Negotiator. The feature list
+// that a step negotiates is the one configured for THIS session in THIS step:
+// every path from the closure's entry to the negotiateFeatures call passes
+// the assignment of the configuration function's result to that variable
+// (refreshing it only on a restart lets a step of session A advertise what a
+// stream start of session B left there).
+func c01FeaturesConfiguredPerStep(c *cx, id string) {
+	outer := c.fn(id, "", "negotiator")
+	if outer == nil {
+		return
+	}
+	n := 0
+	for _, l := range outer.Lits {
+		g := l.Graph()
+		for _, cl := range l.Calls("xmpp.negotiateFeatures") {
+			if len(cl.Args) < 5 {
+				continue
+			}
+			sel, ok := ast.Unparen(cl.Args[4]).(*ast.SelectorExpr)
+			if !ok {
+				continue
+			}
+			idn, ok := ast.Unparen(sel.X).(*ast.Ident)
+			if !ok {
+				continue
+			}
+			cfgVar, _ := l.Info().ObjectOf(idn).(*types.Var)
+			if cfgVar == nil {
+				continue
+			}
+			n++
+			pt, _ := g.Where(cl)
+			isCfg := func(q eng.Point, nd ast.Node) bool {
+				as, ok := nd.(*ast.AssignStmt)
+				if !ok || len(as.Lhs) != 1 || len(as.Rhs) != 1 {
+					return false
+				}
+				li, ok := ast.Unparen(as.Lhs[0]).(*ast.Ident)
+				if !ok || l.Info().ObjectOf(li) != types.Object(cfgVar) {
+					return false
+				}
+				call, ok := ast.Unparen(as.Rhs[0]).(*ast.CallExpr)
+				if !ok {
+					return false
+				}
+				// a call of the configuration function (a func-typed parameter of the outer function)
+				fi, ok := ast.Unparen(call.Fun).(*ast.Ident)
+				if !ok {
+					return false
+				}
+				fv, _ := l.Info().ObjectOf(fi).(*types.Var)
+				if fv == nil {
+					return false
+				}
+				ps := outer.Sig().Params()
+				for i := 0; i < ps.Len(); i++ {
+					if ps.At(i) == fv {
+						return true
+					}
+				}
+				return false
+			}
+			c.r.Check(id, l, "feature list configured in the step that negotiates it", "O: every path from the Negotiator's entry to negotiateFeatures passes `cfg = f(session, &cfg)` (the captured configuration is shared between steps and sessions)", cl.Pos(), g.MustPassBefore(g.Entry(), pt, isCfg, nil), "a step can negotiate with the configuration that an earlier step - possibly of another session using the same Negotiator - left in the shared variable")
+		}
+	}
+	c.r.Floor(id, "negotiateFeatures calls in the Negotiator closure", n, 1)
 }
